@@ -73,6 +73,36 @@ class Gen(Generic[TV], DataClassDictMixin):
     g: TV
     gs: List[TV] = field(default_factory=list)
 
+class NTO(NamedTuple):
+    a: int
+    o: Optional[int] = None
+    d: Optional[datetime.date] = None
+
+class TDO(TypedDict):
+    a: int
+    o: Optional[int]
+    d: NotRequired[Optional[datetime.date]]
+
+PA = TypeVar("PA")
+PB = TypeVar("PB")
+
+@dataclass
+class Pair(Generic[PA, PB], DataClassDictMixin):
+    first: PA
+    second: PB
+
+@dataclass
+class OuterG(Generic[TV], DataClassDictMixin):
+    p: Pair[TV, List[TV]]
+    q: Optional[Pair[TV, TV]] = None
+
+@dataclass
+class HoldOpt(DataClassDictMixin):
+    nt: Optional[NTO] = None
+    td: Optional[TDO] = None
+    tv: Optional[Tuple[Optional[int], ...]] = None
+    tf: Optional[Tuple[int, Optional[datetime.date]]] = None
+
 @dataclass
 class OptD(DataClassDictMixin):
     due: Optional[datetime.date] = datetime.date(2000, 1, 1)
@@ -151,6 +181,7 @@ LEAVES = [
     ("newtype", "UserId", ()), ("nt", "NT", ()), ("td", "TDict", ()), ("tdnt", "TDictNT", ()),
     ("plain", "Plain", ()), ("mix", "Mix", ()), ("inh", "Inh", ()), ("gen_int", "Gen[int]", ()),
     ("gen_date", "Gen[datetime.date]", ()), ("optd", "OptD", ()), ("selfref", "SelfRef", ()), ("lvl3", "Lvl3", ()),
+    ("nto", "NTO", ()), ("tdo", "TDO", ()), ("outerg_date", "OuterG[datetime.date]", ()), ("outerg_int", "OuterG[int]", ()),
     ("self_toml", "SelfT", ("fmtself:toml",)), ("self_msgpack", "SelfM", ("fmtself:msgpack",)),
     ("self_orjson", "SelfO", ("fmtself:orjson",)),
 ]
@@ -168,7 +199,7 @@ CTORS = [
     ("final", "Final[{X}]", ("fieldonly",)),
 ]
 UNHASHABLE = {"any", "nt", "td", "tdnt", "plain", "mix", "inh", "gen_int", "gen_date", "bytearray", "pattern", "none", "optd",
-              "selfref", "lvl3", "self_toml", "self_msgpack", "self_orjson"}
+              "selfref", "lvl3", "self_toml", "self_msgpack", "self_orjson", "nto", "tdo", "outerg_date", "outerg_int"}
 # union with int: members whose wire form is int/bool/float/str-compatible are lossy
 UNION_LOSSY = {"int", "bool", "float", "any", "intenum", "intflag", "num", "newtype", "timedelta", "none", "lit",
                "flag", "litenum"}
@@ -189,6 +220,10 @@ EXTRA = [
     ("stype", "SType", ("stype",)),
     ("list_stype", "List[SType]", ("stype",)),
     ("gen_opt", "Gen[Optional[str]]", ()),
+    ("tvar_opt", "Tuple[Optional[int], ...]", ()), ("tfix_opt", "Tuple[int, Optional[datetime.date]]", ()),
+    ("opt_tvar_opt", "Optional[Tuple[Optional[int], ...]]", ()), ("list_opt_date", "List[Optional[datetime.date]]", ()),
+    ("dict_opt", "Dict[str, Optional[int]]", ()), ("opt_nto", "Optional[NTO]", ()), ("opt_tdo", "Optional[TDO]", ()),
+    ("opt_tfix_opt", "Optional[Tuple[int, Optional[datetime.date]]]", ()),
     ("tuple_empty", "Tuple[()]", ()),
     ("tuple_bare", "tuple", ("any",)),
     ("list_bare", "list", ("any",)),
